@@ -61,6 +61,9 @@ func baseWorld() {
 	put(actor(O+"?alt=1", "same path as the owner, different query"))
 	put(actor(h2+"/users/O", "same path as the owner on another host"))
 	put(actor(h1+"/users/o", "same id as the owner except for letter case"))
+	put(actor(h1+"/users/%4F", "same id as the owner once percent-decoded"))
+	put(note(h1+"/notes/%51", "same id as Q once percent-decoded"))
+	put(actor(h1+"/users%2FO", "same id as the owner once the slash is decoded"))
 	put(note(h1+"/notes/q", "same id as Q except for letter case"))
 }
 
@@ -125,6 +128,8 @@ func activityEntries() []entry {
 	mk("by-same-path-actor-on-other-host", "Announce", h1, str(h2+"/users/O"), false, nil)
 	mk("by-actor-differing-only-in-query", "Announce", h1, str(O+"?alt=1"), false, nil)
 	mk("by-actor-differing-only-in-case", "Announce", h1, str(h1+"/users/o"), false, nil)
+	mk("by-actor-differing-only-in-percent-encoding", "Announce", h1, str(h1+"/users/%4F"), false, nil)
+	mk("by-actor-differing-only-in-an-encoded-slash", "Announce", h1, str(h1+"/users%2FO"), false, nil)
 	mk("peer-with-owner-name", "Announce", h1, func() any { a := actor(P, "Owner"); return a }, false, nil)
 	// a URL on the owner's host that redirects to a document served by another host which
 	// claims an id on the owner's host and the owner as its actor: the claim cannot be
@@ -193,6 +198,7 @@ func replyEntries() []entry {
 	mk("parent-same-path-other-host", h1, str(h2+"/notes/Q"), false, nil)
 	mk("parent-differing-only-in-query", h1, str(Q+"?rev=2"), false, nil)
 	mk("parent-differing-only-in-case", h1, str(h1+"/notes/q"), false, nil)
+	mk("parent-differing-only-in-percent-encoding", h1, str(h1+"/notes/%51"), false, nil)
 	mk("tombstone", h1, str(Q), false, func(d M) { d["type"] = "Tombstone" })
 	mk("an-actor", h1, str(Q), false, func(d M) { d["type"] = "Person" })
 	mk("reply-with-foreign-author", h2, str(Q), false, func(d M) { d["attributedTo"] = O })
@@ -553,7 +559,7 @@ func runAuthor(r *ev.Report, ac authorCase, via string, n int) {
 
 func main() {
 	r := ev.New("C09", "exploration",
-		"outbox of actor O: 15 activity kinds (by owner: Announce/Like/Create, hosted elsewhere, owner embedded; impostors: same-host peer, foreign actor, missing/unfetchable actor, non-activity, peer named like the owner; forged owner copy from another host) x 4 representations "+
+		"outbox of actor O: 17 activity kinds (by owner: Announce/Like/Create, hosted elsewhere, owner embedded; impostors: same-host peer, foreign actor, missing/unfetchable actor, non-activity, peer named like the owner; forged owner copy from another host) x 4 representations "+
 			"(embedded, URL, stub{id}, stub{id,type}) + 404 + junk; replies of post Q: 16 reply kinds (genuine incl. other host / fragment / forged embedded parent; other parent, trailing slash, none, unfetchable, same path other host, tombstone, actor, foreign author, self-reply) x {embedded, URL}; "+
 			"every single entry, every ordered pair and (thorough) every ordered triple over a reduced set, inline and split across a remote page; 12 author cases (same/foreign host, embedded claims, missing ids on either side, unfetchable, two authors) directly and as an announced object; "+
 			"owners reached through an alias URL while the URL equal to their id serves another document (with another id, without id), referenced as URL, {id}, {id,type} and through the alias; "+
